@@ -66,6 +66,7 @@ class Interp(CoreMixin, ExprMixin, StmtMixin, CallMixin):
         self.kept_locals = {}
         self.watch_calls = set()
         self.analyse_generators = set()   # qualnames of generator functions whose body is evaluated (yield = effect)
+        self._memoised = {}             # (function, argument value numbers) -> cached result node
         self.call_log = []
         self.undefined = self.g.mk("Undefined")
         try:
